@@ -277,6 +277,12 @@ class ES(Inverter):
     async def read_settings_data(self) -> dict[str, Any]:
         response = await self._read_from_socket(self._READ_DEVICE_SETTINGS_DATA)
         data = self._map_response(response, self.settings())
+        # settings kept in registers outside the settings block (eco mode groups) have no value here,
+        # they are read by read_setting()
+        size = len(response.response_data())
+        for setting in self.settings():
+            if setting.offset + setting.size_ > size:
+                data[setting.id_] = None
         return data
 
     async def get_grid_export_limit(self) -> int:
